@@ -88,6 +88,7 @@ type c10Case struct {
 	Seq        []string `json:"sequence"`
 	BackToBack bool     `json:"back_to_back"`
 	Sources    int      `json:"sources"`
+	FirstAlone bool     `json:"first_alone,omitempty"` // the first datagram is handled to quiescence, the rest arrive as one burst
 }
 
 // c10Exec delivers the sequence and returns, per position, the masked emissions attributed to
@@ -101,7 +102,7 @@ func c10Exec(cs c10Case) (map[int][]string, []string, string) {
 		if cs.Sources > 1 && i%2 == 1 {
 			src = "127.0.0.8:5060"
 		}
-		if cs.BackToBack {
+		if cs.BackToBack && !(cs.FirstAlone && i == 0) {
 			w.udp[src].Send("127.0.0.1:5060", c10Datagram(sh, i))
 		} else {
 			w.SendUDP(src, "127.0.0.1:5060", c10Datagram(sh, i))
@@ -209,7 +210,7 @@ func c10Run(c *Ctx) {
 					if !c.Mine(idx) || c.Expired() {
 						continue
 					}
-					cs := c10Case{append([]string(nil), cur...), b2b, nsrc}
+					cs := c10Case{Seq: append([]string(nil), cur...), BackToBack: b2b, Sources: nsrc}
 					cl, detail := c10Eval(cs)
 					c.Res.Evaluations++
 					c.Res.Executions++
@@ -225,7 +226,7 @@ func c10Run(c *Ctx) {
 						// minimise: drop datagrams while the same clause fails
 						min := cs
 						for k := 0; k < len(min.Seq); {
-							t := c10Case{append(append([]string(nil), min.Seq[:k]...), min.Seq[k+1:]...), min.BackToBack, min.Sources}
+							t := c10Case{Seq: append(append([]string(nil), min.Seq[:k]...), min.Seq[k+1:]...), BackToBack: min.BackToBack, Sources: min.Sources}
 							if len(t.Seq) > 0 {
 								if cl2, _ := c10Eval(t); cl2 == cl {
 									min = t
@@ -251,11 +252,40 @@ func c10Run(c *Ctx) {
 		}
 	}
 	rec(nil)
+	// one datagram handled to quiescence (its buffer goes back to the pool), then a burst of three
+	// that queue up behind the parse goroutine
+	first := c10Shapes
+	burst := []string{"small", "body", "overdeclared", "large"}
+	if c.Thorough() {
+		burst = c10Shapes
+	}
+	for _, f := range first {
+		for _, a := range burst {
+			for _, b := range burst {
+				for _, d := range burst {
+					idx++
+					if !c.Mine(idx) || c.Expired() {
+						continue
+					}
+					cs := c10Case{Seq: []string{f, a, b, d}, BackToBack: true, Sources: 1, FirstAlone: true}
+					cl, detail := c10Eval(cs)
+					c.Res.Evaluations++
+					c.Res.Executions++
+					c.Res.States++
+					c.Res.Transitions += 4
+					c.Res.Nontrivial++
+					if cl != "" {
+						c.Violate(cl+"|first-alone|"+strings.Join(cs.Seq, ">"), cl, fmt.Sprintf("sequence %v (first datagram handled to quiescence, then a burst):\n%s", cs.Seq, detail), cs)
+					}
+				}
+			}
+		}
+	}
 }
 
 func init() {
 	addCheck(&Check{ID: "C10", Level: "model_checking",
-		Rule: "all sequences of length 1-3 (thorough 1-4) over a 12-shape datagram alphabet (small, 60 KiB with distinctive filler, with body, declared length larger / much larger / smaller than the payload, cut inside start line / header / blank line / body, blanks only, two messages in one datagram), delivered with quiescence in between (the LIFO pool recycles the dirty buffer) and back-to-back, from one and from two sources; differential oracle: what is relayed for a datagram inside the sequence equals byte for byte (fresh branch masked) what a fresh world relays for it alone, and incomplete / over-declared datagrams are never relayed; schedule exploration of the receive / parse / loop goroutines under the race detector: see the race tier; non-trivial = sequence of at least two datagrams",
+		Rule: "all sequences of length 1-3 (thorough 1-4) over a 12-shape datagram alphabet (small, 60 KiB with distinctive filler, with body, declared length larger / much larger / smaller than the payload, cut inside start line / header / blank line / body, blanks only, two messages in one datagram), delivered with quiescence in between (the LIFO pool recycles the dirty buffer) and back-to-back, from one and from two sources, plus {any datagram handled to quiescence, then a burst of three}; differential oracle: what is relayed for a datagram inside the sequence equals byte for byte (fresh branch masked) what a fresh world relays for it alone, and incomplete / over-declared datagrams are never relayed; schedule exploration of the receive / parse / loop goroutines under the race detector: see the race tier; non-trivial = sequence of at least two datagrams",
 		Run:  c10Run,
 		Replay: func(c *Ctx, raw json.RawMessage) string {
 			var cs c10Case
